@@ -387,21 +387,34 @@ class Ctx:
                 uniq.append(v)
         reals = [v for v in uniq if z3.is_real(v)]
         ints = [v for v in uniq if z3.is_int(v)]
-        tiers = []
-        frac = [z3.Not(z3.IsInt(v)) for v in reals] + [z3.IsInt(4 * v) for v in reals] + [v > 1 for v in reals]  # (dyadic: exact as floats and as text)
-        if len(reals) > 1:
-            frac.append(z3.Distinct(reals))
-        if frac:
-            tiers.append(frac + ([z3.Distinct(ints)] if len(ints) > 1 else []) + [v != 0 for v in ints])
-            tiers.append(frac)
-        elif ints:
-            tiers.append(([z3.Distinct(ints)] if len(ints) > 1 else []) + [v != 0 for v in ints])
-        for extra in tiers:
+        # greedy: keep every genericity constraint that leaves the path condition satisfiable
+        kept = []
+
+        def try_add(c):
             try:
-                if self._check(*extra):
+                if self._check(*(kept + [c])):
+                    kept.append(c)
+                    return True
+            except BaseException:  # noqa: BLE001
+                pass
+            return False
+
+        budget = 80
+        for v in reals:
+            # (dyadic: exact as floats and as text)
+            try_add(z3.And(z3.Not(z3.IsInt(v)), z3.IsInt(4 * v), v > 1))
+        for v in ints:
+            try_add(v != 0)
+        pairs = [(a, b) for i, a in enumerate(reals) for b in reals[i + 1:]] + \
+                [(a, b) for i, a in enumerate(ints) for b in ints[i + 1:]]
+        for a, b in pairs[:budget]:
+            try_add(a != b)
+        if kept:
+            try:
+                if self._check(*kept):
                     return self._model_inputs(self.last.model())
             except BaseException:  # noqa: BLE001
-                break
+                pass
         if self.feasible():
             return self._model_inputs(self.model)
         return None
